@@ -7,9 +7,11 @@ from http.server import BaseHTTPRequestHandler, ThreadingHTTPServer
 class Scenario:
     """hosts: list of host names (with or without :port) put into the standard connection string;
     payloads: per-host bytes (already gzip) ; auth: 'digest' | 'none' | 'basic' | 'reject' (401 even after auth);
-    faults: dict host-index -> ('http', code) | ('reset',) | ('cut', nbytes) ; cluster_fault likewise."""
+    faults: dict host-index -> ('http', code) | ('reset',) | ('cut', nbytes) ; cluster_fault likewise;
+    delays: dict host-index -> seconds the service waits before answering the (authenticated) log request of that host."""
 
-    def __init__(self, hosts, payloads, auth="digest", faults=None, cluster_fault=None, srv=False, echo=False, public="pubkey", private="privkey"):
+    def __init__(self, hosts, payloads, auth="digest", faults=None, cluster_fault=None, srv=False, echo=False, public="pubkey", private="privkey", delays=None):
+        self.delays = delays or {}
         self.hosts, self.payloads, self.auth = hosts, payloads, auth
         self.faults = faults or {}
         self.cluster_fault = cluster_fault
@@ -101,6 +103,8 @@ class Fake:
             names = [h.split(":")[0] for h in sc.hosts]
             idx = names.index(host) if host in names else -1
             entry["host_index"] = idx
+            if entry.get("authed") and sc.delays.get(idx):
+                time.sleep(sc.delays[idx])
             if idx in sc.faults:
                 f = sc.faults[idx]
                 if f[0] == "seq":
